@@ -58,6 +58,7 @@ type c12Model struct {
 	allNames    map[string]bool   // every key name ever seen (all epochs)
 	primary     string
 	prevSerial  *big.Int
+	wantSerial  *big.Int // the serial the rotation in hand names on its command line (nil: none)
 	stamps      map[int64]bool // --timestamp of every command so far
 	preCerts    map[string][]byte
 	staleName   string
@@ -218,6 +219,12 @@ func runC12(r *core.Run) {
 				r.Probe("refused-rotation-repeated")
 			}
 			overridden = ra.SerialOverride != 0 || ra.SerialBig != nil
+			m.wantSerial = nil
+			if ra.SerialBig != nil {
+				m.wantSerial = ra.SerialBig
+			} else if ra.SerialOverride != 0 {
+				m.wantSerial = big.NewInt(ra.SerialOverride)
+			}
 			desc = fmt.Sprintf("rotate(ow=%v,kg=%v,scn=%q,serial=%d,big=%v)", f.Overwrite, f.KeepGoing, ra.SignCN, ra.SerialOverride, ra.SerialBig)
 			// the store refuses the manifest write of this rotation: its certificate object stays
 			// behind unlisted, and a later rotation derives the same object name
@@ -471,6 +478,11 @@ func c12Check(r *core.Run, a *Authority, m *c12Model, cfg Config, made string, o
 		}
 		if !m.stamps[cert.NotBefore.Unix()] {
 			r.Fail("signing-profile", "not-before/"+made, "%s: signing certificate NotBefore %v is not the timestamp of any command of the history (this command: %v)", where, cert.NotBefore.UTC(), a.Now.UTC())
+		}
+		if made == "rot" && overridden && !f.KeepGoing && m.wantSerial != nil && ss != nil && ss.Cmp(m.wantSerial) != 0 {
+			// "unless overridden": an override is the serial the new certificate gets (with
+			// --keep_going an earlier command's certificate may legitimately be kept instead)
+			r.Fail("serial-not-successor", "override-not-honoured"+shape, "%s: the command named serial %v, the new signing certificate has %v", where, m.wantSerial, ss)
 		}
 		if made == "rot" && !overridden && m.prevSerial != nil && ss != nil {
 			want := new(big.Int).Add(m.prevSerial, big.NewInt(1))
